@@ -1,0 +1,13 @@
+//go:build verif
+
+package pubsub
+
+// verifHook, when set by a verification harness, is called at named schedule
+// points. It exists only in builds with the verif tag.
+var verifHook func(point string)
+
+func verifPoint(point string) {
+	if h := verifHook; h != nil {
+		h(point)
+	}
+}
